@@ -20,8 +20,8 @@ const c04ChildCases = 18
 
 func c04Child(c *core.Ctx, idx int) {
 	r := c.Rand()
-	kind := []schema.FKKind{schema.FkIndex, schema.FkIndexCascade, schema.FkConstraint}[idx%3]
-	kindName := []string{"non-nullable fk index", "cascade-delete fk index", "non-nullable fk constraint"}[idx%3]
+	kind := []schema.FKKind{schema.FkIndex, schema.FkIndexCascade, schema.FkConstraint, schema.FkIndexNullable}[idx%4]
+	kindName := []string{"non-nullable fk index", "cascade-delete fk index", "non-nullable fk constraint", "nullable fk index"}[idx%4]
 	depots := &schema.StoreDef{Type: "depots", BasePath: []string{"stores"},
 		Fields: []schema.Field{{Name: "crates", Kind: schema.KList, FK: "crates", Derived: true}}}
 	crates := &schema.StoreDef{Type: "crates", BasePath: []string{"stores"}, Fields: []schema.Field{{Name: "label", Kind: schema.KStr}}}
@@ -75,6 +75,43 @@ func c04Child(c *core.Ctx, idx int) {
 			situation = "over an entity that exists in the parent store"
 		}
 		if hasChild {
+			// the child part exists: re-point the reference through the child store, or (nullable kind) clear it
+			to := core.Pick(r, []string{"d1", "d2", "<nil>"})
+			ent := &schema.Ent{Id: id, Typ: "crates", HasChild: true, V: map[string]any{"label": "l3", "serial": "sn-" + id}}
+			if to != "<nil>" {
+				ent.V["depot"] = to
+			}
+			wantOk := to != "<nil>" || kind == schema.FkIndexNullable
+			uerr := db.Update(nil, func(ctx boltz.MutateContext) error { return kst.Store.Update(ctx, ent, nil) })
+			c.Eval()
+			c.Count("child_store_fk_updates", 1)
+			c.Cover("child_fk", fmt.Sprintf("%s: update to %s", kindName, map[bool]string{true: "null", false: "another target"}[to == "<nil>"]))
+			uinfo := map[string]any{"fk_kind": kindName, "id": id, "from": childOf[id], "to": to}
+			if (uerr == nil) != wantOk {
+				c.Violationf(fmt.Sprintf("C04 child-store foreign key (%s): update of the reference through the child store: expected accepted=%v", kindName, wantOk), uinfo, "returned %v", uerr)
+			}
+			if uerr == nil {
+				childOf[id] = to
+			}
+			if kind != schema.FkConstraint {
+				_ = db.View(func(tx *bbolt.Tx) error {
+					for _, d := range []string{"d1", "d2"} {
+						var want []string
+						for cid, dep := range childOf {
+							if dep == d {
+								want = append(want, cid)
+							}
+						}
+						sort.Strings(want)
+						got := dst.Store.GetRelatedEntitiesIdList(tx, d, "crates")
+						sort.Strings(got)
+						if fmt.Sprint(got) != fmt.Sprint(want) {
+							c.Violationf("C04 child-store fk ("+kindName+"): back-reference set differs from the committed references after an update", uinfo, "depot %s: crates %q, referencing child parts %q", d, got, want)
+						}
+					}
+					return nil
+				})
+			}
 			continue
 		}
 		ent := &schema.Ent{Id: id, Typ: "crates", HasChild: true, V: map[string]any{"label": "l2"}}
@@ -85,7 +122,7 @@ func c04Child(c *core.Ctx, idx int) {
 			ent.V["serial"] = serial
 		}
 		refClass := map[string]string{"d1": "existing target", "d2": "existing target", "nowhere": "dangling reference", "d1 ": "dangling reference (an existing id with a trailing blank)", " d2": "dangling reference (an existing id with a leading blank)", "": "empty reference", "<nil>": "null reference", id: "dangling reference that is the entity's own id"}[ref]
-		wantOk := refClass == "existing target" && serial != "<nil>"
+		wantOk := (refClass == "existing target" || (kind == schema.FkIndexNullable && (refClass == "null reference" || refClass == "empty reference"))) && serial != "<nil>"
 		opErr := db.Update(nil, func(ctx boltz.MutateContext) error { return kst.Store.Create(ctx, ent) })
 		c.Eval()
 		c.Count("child_store_fk_creates", 1)
@@ -111,7 +148,7 @@ func c04Child(c *core.Ctx, idx int) {
 				if got, _ := e.V["depot"].(string); got != dep && (dep == "d1" || dep == "d2") {
 					c.Violationf("C04 child-store fk: stored reference differs", info, "crate %s: depot %q, written %q", cid, got, dep)
 				}
-				if got, _ := e.V["depot"].(string); !dst.Store.IsEntityPresent(tx, got) {
+				if got, _ := e.V["depot"].(string); !dst.Store.IsEntityPresent(tx, got) && !(kind == schema.FkIndexNullable && got == "") {
 					c.Violationf("C04 child-store fk ("+kindName+"): a committed reference names no existing target", info, "crate %s -> depot %q", cid, got)
 				}
 			}
